@@ -145,12 +145,13 @@ def verify(interp, target, timeout_ms=10000, verbose=False, only=None):
           if outcome[0] in ("prefail", "pathend"): continue
           if outcome[0] == "raise":
               pr = outcome[1]; allowed = False
-              for (exc_name, when) in c.raises:
+              for item in c.raises:
+                  exc_name, when = item[0], item[1]; label = item[2] if len(item) > 2 else "when"
                   if exc_name == pr.exc.name:
                       allowed = True
                       if when is not None:
                           qg = Q("goal"); g = when(Ctx(ctx, old=old), qg)
-                          discharge(f"raises.{exc_name}.when", pc + qg.hyps, g, tag, {})
+                          discharge(f"raises.{exc_name}.{label}", pc + qg.hyps, g, tag, {})
               if not allowed:
                   v = smt.Verdict("refuted", "z3", 0.0, model=_model(pc), detail=f"unexpected {pr.exc.name}: {pr.msg}")
                   r = Result(f"{target}.safe.no_{pr.exc.name}", v, tag, {"msg": str(pr.msg)})
